@@ -56,7 +56,7 @@ def main():
                                               allow_missing=[False, True], n_jobs=[1, 2], extra_col=[False],
                                               props=['C06', 'C08', 'CRASH'])))
     ck.e2('matcher-missing', h_cand.make(dict(mode='matcher', nl=2, nr=2, ncand=[2, 3], missing='sym', tokenizer=[True, False],
-                                              comp_ops=['>='], allow_missing=[False, True], out_sim_score=[True],
+                                              comp_ops=['>=', '!='], allow_missing=[False, True], out_sim_score=[True],
                                               out_attrs=[(None, None)], n_jobs=[1, 2], extra_col=[False],
                                               bound_method=[False], props=['C05', 'C08', 'CRASH'])))
     ck.finish()
